@@ -125,7 +125,7 @@ def _diff_worker(ctx, item):
     return dict(mode=mode, positions=positions, res=res, witnesses=wit, s=time.time() - t0)
 
 
-def theta_diff(chk, sp, n, procedural, label, timeout_ms=600000, nparts=None):
+def theta_diff(chk, sp, n, procedural, label, timeout_ms=2400000, nparts=None):
     """differential obligation: for every Theta sequence of n tokens that is a script of the grammar,
     every significant token lies in the statement the grammar says.  Listed findings are first
     re-confirmed on their recorded example (public API) and, only if still reproducing, excluded
